@@ -319,179 +319,190 @@ func main() {
 			}
 		}
 	}
-	r.RunSharded(len(jobs), func(ji int) {
-		u, sh, part := jobs[ji].u, jobs[ji].sh, jobs[ji].part
-		if r.Only != "" && r.Only != u.name {
-			return
-		}
-		n := len(u.keys)
-		bs := batches(n, maxBatch, r.Thorough())
-		newTrie := func(root []byte) interface {
-			Update(db smt.DBReadWriter, keys [][]byte, values [][]byte) ([]byte, error)
-			Prove(db smt.DBReader, queryKeys [][]byte) (*smt.Proof, error)
-		} {
-			t := smt.NewTrie(root, u.keyLen)
-			t.SetSubtreeHeight(uint8(sh))
-			return t
-		}
-		start := &state{assign: make([]int, n), db: newMem(), root: ref.EmptyHash}
-		seen := map[int]*state{code(start.assign): start}
-		queue := []*state{start}
-		// ---- roots over all update histories (BFS over maps) ----
-		for len(queue) > 0 {
-			if r.Expired() {
-				r.Cap("deadline in root search " + u.name)
-				break
-			}
-			s := queue[0]
-			queue = queue[1:]
-			for bi := range bs {
-				b := bs[bi]
-				na := append([]int{}, s.assign...)
-				ks, vs := [][]byte{}, [][]byte{}
-				for j, idx := range b.Idx {
-					na[idx] = b.Act[j]
-					ks = append(ks, u.keys[idx])
-					v := vals[b.Act[j]]
-					if v == nil {
-						v = []byte{}
-					}
-					vs = append(vs, v)
-				}
-				db := s.db.clone()
-				t := newTrie(s.root) // reopened from the stored nodes at the latest root
-				var root []byte
-				var err error
-				c := caseT{u.name, sh, s.assign, &b, nil, ""}
-				if p := vlib.Catch(func() { root, err = t.Update(db, ks, vs) }); p != "" || err != nil {
-					r.Violation(fmt.Sprintf("update-fails:%s:sh%d", u.name, sh), fmt.Sprintf("Update fails on map %v batch %+v: %v %s", s.assign, b, err, p), c)
-					continue
-				}
-				if bi%parts == part {
-					r.Add("transitions", 1) // every part replays the whole search; each counts its own share
-				}
-				want := ref.SMTRoot(mapOf(u, na))
-				if !bytes.Equal(root, want) {
-					r.Violation(fmt.Sprintf("root-differs:%s:sh%d", u.name, sh), fmt.Sprintf("root after batch %+v on map %v is not the LIP-0039 root of the resulting map %v", b, s.assign, na), c)
-					continue
-				}
-				// the nodes stored by this very update (not only by the first update that reached the map) must be a
-				// complete trie: reopened at the new root it answers every key of the universe with a verifying proof
-				if bi%parts == part {
-					t2 := newTrie(root)
-					var proof *smt.Proof
-					var perr error
-					if p := vlib.Catch(func() { proof, perr = t2.Prove(db, u.keys) }); p != "" || perr != nil {
-						r.Violation(fmt.Sprintf("stored-nodes-incomplete:%s:sh%d", u.name, sh), fmt.Sprintf("after batch %+v on map %v the trie reopened at the new root cannot prove the universe: %v %s", b, s.assign, perr, p), c)
-						continue
-					}
-					if ok, verr := smt.Verify(u.keys, proof, root, u.keyLen); !ok || verr != nil {
-						r.Violation(fmt.Sprintf("stored-nodes-proof-invalid:%s:sh%d", u.name, sh), fmt.Sprintf("after batch %+v on map %v the proof generated from the stored nodes does not verify: %v", b, s.assign, verr), c)
-						continue
-					}
-					r.Add("post_update_reopen_proofs", 1)
-				}
-				if _, ok := seen[code(na)]; !ok {
-					ns := &state{assign: na, db: db, root: root}
-					seen[code(na)] = ns
-					queue = append(queue, ns)
-				}
-			}
-		}
-		if part == 0 {
-			r.Add("states", int64(len(seen)))
-		}
-		// empty map => empty hash (reached again after deleting everything): covered by root oracle since ref gives EmptyHash
-		// ---- proofs: every map x every query set x every tampering ----
-		all := append(append([][]byte{}, u.keys...), u.probes...)
-		qsets := [][]int{}
-		var rec func(start int, cur []int)
-		rec = func(start int, cur []int) {
-			if len(cur) > 0 {
-				qsets = append(qsets, append([]int{}, cur...))
-			}
-			if len(cur) == maxQ {
+	// two sharded phases: a worker process re-runs main() and serves the first sharded call it reaches, so the parent
+	// names the phase (the dense part runs in a worker too: a crash inside the trie's own goroutines must not
+	// take the reporting process down)
+	phase := os.Getenv("VERIF_PHASE")
+	if inWorkerProc() && phase == "dense" {
+		jobs = nil
+	}
+	os.Setenv("VERIF_PHASE", "search")
+	if !(inWorkerProc() && phase == "dense") {
+		r.RunSharded(len(jobs), func(ji int) {
+			u, sh, part := jobs[ji].u, jobs[ji].sh, jobs[ji].part
+			if r.Only != "" && r.Only != u.name {
 				return
 			}
-			for i := start; i < len(all); i++ {
-				rec(i+1, append(cur, i))
+			n := len(u.keys)
+			bs := batches(n, maxBatch, r.Thorough())
+			newTrie := func(root []byte) interface {
+				Update(db smt.DBReadWriter, keys [][]byte, values [][]byte) ([]byte, error)
+				Prove(db smt.DBReader, queryKeys [][]byte) (*smt.Proof, error)
+			} {
+				t := smt.NewTrie(root, u.keyLen)
+				t.SetSubtreeHeight(uint8(sh))
+				return t
 			}
-		}
-		rec(0, nil)
-		for i := range all {
-			qsets = append(qsets, []int{i, i}) // duplicate query
-		}
-		codes := []int{}
-		for c := range seen {
-			codes = append(codes, c)
-		}
-		sort.Ints(codes)
-		for ci, cd := range codes {
-			if ci%parts != part {
-				continue
-			}
-			if r.Expired() {
-				r.Cap("deadline in proof enumeration " + u.name)
-				break
-			}
-			s := seen[cd]
-			m := mapOf(u, s.assign)
-			for _, qs := range qsets {
-				q := [][]byte{}
-				for _, i := range qs {
-					q = append(q, all[i])
+			start := &state{assign: make([]int, n), db: newMem(), root: ref.EmptyHash}
+			seen := map[int]*state{code(start.assign): start}
+			queue := []*state{start}
+			// ---- roots over all update histories (BFS over maps) ----
+			for len(queue) > 0 {
+				if r.Expired() {
+					r.Cap("deadline in root search " + u.name)
+					break
 				}
-				c := caseT{u.name, sh, s.assign, nil, qs, ""}
-				t := newTrie(s.root)
-				var proof *smt.Proof
-				var err error
-				if p := vlib.Catch(func() { proof, err = t.Prove(s.db, q) }); p != "" || err != nil {
-					r.Violation(fmt.Sprintf("prove-fails:%s:sh%d", u.name, sh), fmt.Sprintf("Prove(%v) on map %v fails: %v %s", qs, s.assign, err, p), c)
+				s := queue[0]
+				queue = queue[1:]
+				for bi := range bs {
+					b := bs[bi]
+					na := append([]int{}, s.assign...)
+					ks, vs := [][]byte{}, [][]byte{}
+					for j, idx := range b.Idx {
+						na[idx] = b.Act[j]
+						ks = append(ks, u.keys[idx])
+						v := vals[b.Act[j]]
+						if v == nil {
+							v = []byte{}
+						}
+						vs = append(vs, v)
+					}
+					db := s.db.clone()
+					t := newTrie(s.root) // reopened from the stored nodes at the latest root
+					var root []byte
+					var err error
+					c := caseT{u.name, sh, s.assign, &b, nil, ""}
+					if p := vlib.Catch(func() { root, err = t.Update(db, ks, vs) }); p != "" || err != nil {
+						r.Violation(fmt.Sprintf("update-fails:%s:sh%d", u.name, sh), fmt.Sprintf("Update fails on map %v batch %+v: %v %s", s.assign, b, err, p), c)
+						continue
+					}
+					if bi%parts == part {
+						r.Add("transitions", 1) // every part replays the whole search; each counts its own share
+					}
+					want := ref.SMTRoot(mapOf(u, na))
+					if !bytes.Equal(root, want) {
+						r.Violation(fmt.Sprintf("root-differs:%s:sh%d", u.name, sh), fmt.Sprintf("root after batch %+v on map %v is not the LIP-0039 root of the resulting map %v", b, s.assign, na), c)
+						continue
+					}
+					// the nodes stored by this very update (not only by the first update that reached the map) must be a
+					// complete trie: reopened at the new root it answers every key of the universe with a verifying proof
+					if bi%parts == part {
+						t2 := newTrie(root)
+						var proof *smt.Proof
+						var perr error
+						if p := vlib.Catch(func() { proof, perr = t2.Prove(db, u.keys) }); p != "" || perr != nil {
+							r.Violation(fmt.Sprintf("stored-nodes-incomplete:%s:sh%d", u.name, sh), fmt.Sprintf("after batch %+v on map %v the trie reopened at the new root cannot prove the universe: %v %s", b, s.assign, perr, p), c)
+							continue
+						}
+						if ok, verr := smt.Verify(u.keys, proof, root, u.keyLen); !ok || verr != nil {
+							r.Violation(fmt.Sprintf("stored-nodes-proof-invalid:%s:sh%d", u.name, sh), fmt.Sprintf("after batch %+v on map %v the proof generated from the stored nodes does not verify: %v", b, s.assign, verr), c)
+							continue
+						}
+						r.Add("post_update_reopen_proofs", 1)
+					}
+					if _, ok := seen[code(na)]; !ok {
+						ns := &state{assign: na, db: db, root: root}
+						seen[code(na)] = ns
+						queue = append(queue, ns)
+					}
+				}
+			}
+			if part == 0 {
+				r.Add("states", int64(len(seen)))
+			}
+			// empty map => empty hash (reached again after deleting everything): covered by root oracle since ref gives EmptyHash
+			// ---- proofs: every map x every query set x every tampering ----
+			all := append(append([][]byte{}, u.keys...), u.probes...)
+			qsets := [][]int{}
+			var rec func(start int, cur []int)
+			rec = func(start int, cur []int) {
+				if len(cur) > 0 {
+					qsets = append(qsets, append([]int{}, cur...))
+				}
+				if len(cur) == maxQ {
+					return
+				}
+				for i := start; i < len(all); i++ {
+					rec(i+1, append(cur, i))
+				}
+			}
+			rec(0, nil)
+			for i := range all {
+				qsets = append(qsets, []int{i, i}) // duplicate query
+			}
+			codes := []int{}
+			for c := range seen {
+				codes = append(codes, c)
+			}
+			sort.Ints(codes)
+			for ci, cd := range codes {
+				if ci%parts != part {
 					continue
 				}
-				r.Add("proofs", 1)
-				ok := false
-				if p := vlib.Catch(func() { ok, err = smt.Verify(q, proof, s.root, u.keyLen) }); p != "" || !ok {
-					r.Violation(fmt.Sprintf("own-proof-rejected:%s:sh%d", u.name, sh), fmt.Sprintf("Verify(Prove(%v)) on map %v = %v %v %s", qs, s.assign, ok, err, p), c)
-					continue
+				if r.Expired() {
+					r.Cap("deadline in proof enumeration " + u.name)
+					break
 				}
-				if agree, why := claimsAgree(m, q, proof); !agree {
-					r.Violation(fmt.Sprintf("own-proof-wrong-claim:%s:sh%d", u.name, sh), fmt.Sprintf("Prove(%v) on map %v %s", qs, s.assign, why), c)
-				}
-				for _, tm := range tamperings(u, q, proof, s.root) {
-					r.Add("tampered_proofs", 1)
-					acc := false
-					pn := vlib.Catch(func() { acc, _ = smt.Verify(tm.q, tm.p, tm.root, u.keyLen) })
-					if pn != "" {
-						r.Add("tampered_proofs_panicking", 1) // crash-freedom is C09's oracle; counted here
+				s := seen[cd]
+				m := mapOf(u, s.assign)
+				for _, qs := range qsets {
+					q := [][]byte{}
+					for _, i := range qs {
+						q = append(q, all[i])
+					}
+					c := caseT{u.name, sh, s.assign, nil, qs, ""}
+					t := newTrie(s.root)
+					var proof *smt.Proof
+					var err error
+					if p := vlib.Catch(func() { proof, err = t.Prove(s.db, q) }); p != "" || err != nil {
+						r.Violation(fmt.Sprintf("prove-fails:%s:sh%d", u.name, sh), fmt.Sprintf("Prove(%v) on map %v fails: %v %s", qs, s.assign, err, p), c)
 						continue
 					}
-					if !acc {
+					r.Add("proofs", 1)
+					ok := false
+					if p := vlib.Catch(func() { ok, err = smt.Verify(q, proof, s.root, u.keyLen) }); p != "" || !ok {
+						r.Violation(fmt.Sprintf("own-proof-rejected:%s:sh%d", u.name, sh), fmt.Sprintf("Verify(Prove(%v)) on map %v = %v %v %s", qs, s.assign, ok, err, p), c)
 						continue
 					}
-					r.Add("tampered_proofs_still_accepted", 1)
-					c.Tamper = tm.name
-					if !bytes.Equal(tm.root, s.root) {
-						r.Violation(fmt.Sprintf("accepted-against-other-root:%s", u.name), fmt.Sprintf("tampering %s of Prove(%v) on map %v verifies against a different root", tm.name, qs, s.assign), c)
-						continue
+					if agree, why := claimsAgree(m, q, proof); !agree {
+						r.Violation(fmt.Sprintf("own-proof-wrong-claim:%s:sh%d", u.name, sh), fmt.Sprintf("Prove(%v) on map %v %s", qs, s.assign, why), c)
 					}
-					if len(tm.q) != len(tm.p.Queries) {
-						r.Violation(fmt.Sprintf("accepted-length-mismatch:%s", u.name), "accepted although the number of queries differs", c)
-						continue
-					}
-					if agree, why := claimsAgree(m, tm.q, tm.p); !agree {
-						r.Violation(fmt.Sprintf("unsound-proof-accepted:%s:%s", u.name, tamperClass(tm.name)), fmt.Sprintf("tampering %s of Prove(%v) on map %v is accepted and %s", tm.name, qs, s.assign, why), c)
+					for _, tm := range tamperings(u, q, proof, s.root) {
+						r.Add("tampered_proofs", 1)
+						acc := false
+						pn := vlib.Catch(func() { acc, _ = smt.Verify(tm.q, tm.p, tm.root, u.keyLen) })
+						if pn != "" {
+							r.Add("tampered_proofs_panicking", 1) // crash-freedom is C09's oracle; counted here
+							continue
+						}
+						if !acc {
+							continue
+						}
+						r.Add("tampered_proofs_still_accepted", 1)
+						c.Tamper = tm.name
+						if !bytes.Equal(tm.root, s.root) {
+							r.Violation(fmt.Sprintf("accepted-against-other-root:%s", u.name), fmt.Sprintf("tampering %s of Prove(%v) on map %v verifies against a different root", tm.name, qs, s.assign), c)
+							continue
+						}
+						if len(tm.q) != len(tm.p.Queries) {
+							r.Violation(fmt.Sprintf("accepted-length-mismatch:%s", u.name), "accepted although the number of queries differs", c)
+							continue
+						}
+						if agree, why := claimsAgree(m, tm.q, tm.p); !agree {
+							r.Violation(fmt.Sprintf("unsound-proof-accepted:%s:%s", u.name, tamperClass(tm.name)), fmt.Sprintf("tampering %s of Prove(%v) on map %v is accepted and %s", tm.name, qs, s.assign, why), c)
+						}
 					}
 				}
 			}
-		}
-		if part == 0 {
-			r.Sample(caseT{u.name, sh, seen[codes[len(codes)/2]].assign, &bs[len(bs)/2], qsets[len(qsets)/2], "every tampering"})
-		}
-	})
-	r.Set("traces_validated_against_impl", r.Get("transitions")+r.Get("proofs")+r.Get("tampered_proofs"))
-	if !inWorkerProc() && r.Only == "" {
-		densePart(r)
+			if part == 0 {
+				r.Sample(caseT{u.name, sh, seen[codes[len(codes)/2]].assign, &bs[len(bs)/2], qsets[len(qsets)/2], "every tampering"})
+			}
+		})
+		r.Set("traces_validated_against_impl", r.Get("transitions")+r.Get("proofs")+r.Get("tampered_proofs"))
+	}
+	if r.Only == "" {
+		os.Setenv("VERIF_PHASE", "dense")
+		r.RunSharded(1, func(int) { densePart(r) })
 	}
 	r.Set("explanation", "states = all maps over 4 adversarial key universes x 2 subtree heights reached by BFS; transitions = real trie.Update calls (every batch of <=2/3 keys incl. reversed/permuted orders) on a trie reopened from its stored nodes, root compared with the recursive LIP-0039 root; then for every map every query set and every single-field tampering through smt.Verify with the soundness oracle")
 	r.Finish()
